@@ -157,7 +157,9 @@ def encode (p : EncParam) (w : W) : Out EErr (Nat × W) :=
   (writeByte w2 p.proto).bind fun w3 =>
   (writeByte w3 0).bind fun w4 =>                       -- byte(len(transformIDs)), always 0
   (writeKVInfo 2 p.intKV p.strKV w4).bind fun r =>
-  if r.1 > Facts.ttMaxHeaderSize then .err .size                   -- headerInfoSize > int(MaxHeaderSize)
+  -- `headerInfoSize > int(MaxHeaderSize)`: compared in the width Tie A reports for the left operand
+  -- (64 since the F14 fix; `uint32(headerInfoSize)` would make it 32 and wrap at 4 GiB)
+  if r.1 % 2 ^ Facts.ttEncodeSizeCheckBits > Facts.ttMaxHeaderSize then .err .size
   else
     (r.2.put m.1 12 (be16 ((r.1 / 4) % 65536))).bind fun w5 => .ok (m.1, w5)
 
